@@ -512,7 +512,7 @@ func successReturns(fn *ssa.Function) []ssa.Instruction {
 		if !ok {
 			continue
 		}
-		if idx >= 0 && idx < len(r.Results) && definitelyNonNilErr(r.Results[idx], b, 0) {
+		if idx >= 0 && idx < len(r.Results) && definitelyNonNilErr(returnedValue(r, idx), b, 0) {
 			continue
 		}
 		out = append(out, r)
@@ -657,4 +657,25 @@ func fnInstrs(fn *ssa.Function) []ssa.Instruction {
 		out = append(out, b.Instrs...)
 	}
 	return out
+}
+
+// returnedValue resolves the "defer spill" of go/ssa: in a function with defers and results, `return x` becomes
+// `*res = x; rundefers; t = *res; return t`. It returns x when the store is in the same block, else the result itself.
+func returnedValue(r *ssa.Return, idx int) ssa.Value {
+	v := r.Results[idx]
+	u, ok := v.(*ssa.UnOp)
+	if !ok || u.Op != token.MUL {
+		return v
+	}
+	al, ok := u.X.(*ssa.Alloc)
+	if !ok {
+		return v
+	}
+	b := r.Block()
+	for i := len(b.Instrs) - 1; i >= 0; i-- {
+		if st, ok := b.Instrs[i].(*ssa.Store); ok && st.Addr == al {
+			return st.Val
+		}
+	}
+	return v
 }
